@@ -14,6 +14,7 @@ import BV.Drv.C12
 import BV.Drv.C13
 import BV.Drv.C17
 import BV.Drv.C20
+import BV.Drv.C14
 
 def dispatch (line : String) : String :=
   match (line.trimAscii.toString.splitOn " ").filter (· ≠ "") with
@@ -35,6 +36,7 @@ def dispatch (line : String) : String :=
   | "c13" :: rest => BV.Drv.C13.handle rest
   | "c17" :: rest => BV.Drv.C17.handle rest
   | "c20" :: rest => BV.Drv.C20.handle rest
+  | "c14" :: rest => BV.Drv.C14.handle rest
   | _ => "bad-op"
 
 partial def loop (h : IO.FS.Stream) (out : IO.FS.Stream) : IO Unit := do
